@@ -49,17 +49,17 @@ type c17Service struct {
 }
 
 type c17Case struct {
-	ID         int          `json:"id"`
-	Package    string       `json:"package"`
-	GoPkgForm  int          `json:"go_pkg_form"` // 0 path, 1 path;name, 2 via M parameter
-	Services   []c17Service `json:"services"`
-	FileDepr   bool         `json:"file_deprecated"`
-	Imported   bool         `json:"imported"` // request/response types live in an imported file
+	ID        int          `json:"id"`
+	Package   string       `json:"package"`
+	GoPkgForm int          `json:"go_pkg_form"` // 0 path, 1 path;name, 2 via M parameter
+	Services  []c17Service `json:"services"`
+	FileDepr  bool         `json:"file_deprecated"`
+	Imported  bool         `json:"imported"` // request/response types live in an imported file
 	// Mixed (with Imported): only the request type lives in the imported file, the
 	// response type in the file itself: the generated code refers to two message
 	// packages (with GoTail: two packages whose import paths end alike).
-	Mixed bool `json:"mixed,omitempty"`
-	NoServices bool         `json:"no_services"`
+	Mixed      bool `json:"mixed,omitempty"`
+	NoServices bool `json:"no_services"`
 	// GoTail: last element of the Go import path of the file (and of the
 	// imported file's, when Imported); default "y".  Generated code refers to
 	// packages named http, context, errors, strings and connect_go itself.
